@@ -661,11 +661,162 @@ def labelvalidate_exec(run, fx, rule='LABELENC'):
     run.held(rule, inst, fn.where(), '%d strings of 1..3 units' % cases)
 
 
+def sillexec(run, fx):
+    """LANGMATCH, the table side, by bounded execution: SillMap::readSill is interpreted on byte-addressed Sill tables (real big-endian bytes,
+    be::read interpreted from Endian.h; bytes the format does not define are 0x7E) with 1..2 languages of 0..3
+    settings each, laid out as the format says (12-byte header, 8-byte language entries, 8-byte settings: feature id, value, two
+    reserved bytes).  Every language ends up with exactly its own settings applied, in order, followed by the language id on feature 1:
+    "the font's defaults overridden by the Sill entry of that language"."""
+    import itertools
+    from . import ordint as O
+    fn = fx.one('graphite2::SillMap::readSill')
+    PSM, PLF, PFM = 'graphite2::SillMap::', 'graphite2::SillMap::LangFeaturePair::', 'graphite2::FeatureMap::'
+    inst = 'readSill applies to every language exactly its own settings (interpreted)'
+    POISON = 0x7E7E
+    cases = 0
+    try:
+        for counts in itertools.chain(itertools.product(range(0, 4), repeat=1), [(2, 1), (1, 3), (3, 0)]):
+            nl = len(counts)
+            cells = [0x7E] * (12 + 8 * nl + 8 * sum(counts) + 4)       # real bytes, big-endian; whatever the format does not define is 0x7E
+
+            def put(off, val, w=4):
+                for k_ in range(w):
+                    cells[off + k_] = (val >> (8 * (w - 1 - k_))) & 0xFF
+            put(0, 0x00010000)
+            put(4, nl, 2)
+            setoff = 12 + 8 * nl
+            want = {}
+            for i, ns in enumerate(counts):
+                lid = 0x6C610000 + i
+                put(12 + 8 * i, lid)
+                put(12 + 8 * i + 4, ns, 2)
+                put(12 + 8 * i + 6, setoff, 2)
+                want[lid] = []
+                for j in range(ns):
+                    put(setoff, 100 + 10 * i + j)          # feature id
+                    put(setoff + 4, 7 + j, 2)               # value
+                    want[lid].append((100 + 10 * i + j, 7 + j))
+                    setoff += 8
+                want[lid].append((1, lid))
+            total = setoff
+            vec = O.Vec(cells[:total])
+            fm = O.Rec({PFM + 'm_numFeats': 5, PFM + 'm_defaultFeatures': O.Rec({'#defaults': 1})})
+            sm = O.Rec({PSM + 'm_langFeats': O.Ptr(None), PSM + 'm_numLanguages': 0, PSM + 'm_FeatureMap': fm})
+
+            def applyval(I, f, e, obj, a):
+                feats = I.rv(a[1])
+                feats.setdefault('#applied', []).append((obj['#feat'], I.rv(a[0])))
+                return True
+            nat = {'graphite2::Face::Table::Table': lambda I, f, e, obj, a: O.Rec({'#table': 'Sill'}),
+                   'graphite2::TtfUtil::Tag::Tag': lambda I, f, e, obj, a: O.Rec(),
+                   'graphite2::Face::Table::operator const unsigned char *': lambda I, f, e, obj, a, vec=vec: O.It(vec, 0),
+                   'graphite2::Face::Table::size': lambda I, f, e, obj, a, total=total: total,
+                   'graphite2::Face::Table::~Table': lambda I, f, e, obj, a: None,
+                   'graphite2::FeatureVal::FeatureVal': lambda I, f, e, obj, a: O.Rec({'#applied': []}),
+                   'graphite2::SillMap::LangFeaturePair::LangFeaturePair': lambda I, f, e, obj, a: O.Rec({PLF + 'm_lang': 0, PLF + 'm_pFeatures': O.Ptr(None)}),
+                   'graphite2::FeatureMap::findFeatureRef': lambda I, f, e, obj, a: O.Ptr(O.Rec({'#feat': I.rv(a[0])})) if isinstance(I.rv(a[0]), int) and (I.rv(a[0]) == 1 or 100 <= I.rv(a[0]) < 200) else O.Ptr(None),
+                   'graphite2::FeatureRef::applyValToFeature': applyval}
+            it = O.Interp(fx, natives=nat)
+            it.MAX_STEPS = 20000
+            cases += 1
+            desc = 'a Sill table with %d language(s) of %s setting(s)' % (nl, list(counts))
+            try:
+                r = it.call(fn, sm, [O.Rec({'#face': 1})])
+            except O.Violation as v:
+                run.violated('LANGMATCH', inst, fn.where(), '%s: %s (%s)' % (desc, v.what, v.loc))
+                return
+            if not r:
+                run.violated('LANGMATCH', inst, fn.where(), '%s: readSill rejects the well-formed table' % desc)
+                return
+            lf = sm[PSM + 'm_langFeats']
+            got = {}
+            if isinstance(lf, O.It):
+                for ent in lf.vec.items[:sm[PSM + 'm_numLanguages']]:
+                    pf = ent[PLF + 'm_pFeatures']
+                    got[ent[PLF + 'm_lang']] = list(pf.rec.get('#applied', [])) if isinstance(pf, O.Ptr) and pf.rec is not None else None
+            if got != want:
+                run.violated('LANGMATCH', inst, fn.where(), '%s: the per-language feature sets get %s, expected %s (feature id, value) -- a setting read from the wrong offset is ignored or misapplied, and '
+                             'gr_face_featureval_for_lang no longer gives the font\'s defaults overridden by the language\'s entry' %
+                             (desc, {('%X' % k): v for k, v in got.items()}, {('%X' % k): v for k, v in want.items()}))
+                return
+    except AnalysisBroken as ex:
+        run.broken('LANGMATCH', inst, str(ex), fn.where())
+        return
+    run.held('LANGMATCH', inst, fn.where(), '%d abstract executions' % cases)
+
+
+def perfeature(run, fx):
+    """"a value is accepted ... up to the feature's maximum, any 16-bit value if it defines none": what FeatureMap::readFeats hands to
+    the constructor of each FeatureRef BY VALUE is computed for that feature in that iteration of the loop over the Feat records: a local
+    declared outside the loop reaches the construction only through an assignment made in the same iteration, on every path (the bit
+    offset is handed over by reference and accumulates on purpose).  A maximum hoisted in front of the loop and reset only for features
+    WITH settings gives a feature without settings the maximum of the one before it."""
+    from .util import loop_bodies
+    fn = fx.one('graphite2::FeatureMap::readFeats')
+    inst = 'each FeatureRef is built from values computed for that feature'
+    ctors = [e for _, e in fn.elements() if e['k'] in ('CXXConstructExpr', 'CXXTemporaryObjectExpr') and (e.get('fq') or '').endswith('FeatureRef::FeatureRef') and len(e.get('args') or e.get('c') or []) >= 6]
+    lb = loop_bodies(fn)
+    if len(ctors) != 1:
+        run.broken('SETRANGE', inst, 'the FeatureRef construction of readFeats was not found (%d candidates)' % len(ctors), fn.where())
+        return
+    ce = ctors[0]
+    cb = fn.block_of[ce['i']]
+    loops = [(h, body) for h, body in lb.items() if cb in body]
+    if not loops:
+        run.broken('SETRANGE', inst, 'the FeatureRef construction is not inside a loop', fn.loc(ce))
+        return
+    h, body = min(loops, key=lambda x: len(x[1]))
+    key = ce.get('fm')
+    callee = fx.fn(key) if key in fx.raw['functions'] else None
+    cps = (callee.f.get('params') or []) if callee else []
+    args = ce.get('args') if ce.get('args') is not None else ce.get('c')
+    n, bad = 0, None
+    for j, a in enumerate(args or []):
+        if a is None:
+            continue
+        x = fn.strip_all_casts(fn.N(a))
+        if x['k'] != 'DeclRefExpr' or x.get('dk') != 'Var' or x.get('vid') is None:
+            continue
+        if j < len(cps) and (cps[j].get('t') or '').rstrip().endswith('&') and 'const' not in (cps[j].get('t') or ''):
+            continue                    # handed over by reference: the callee advances it (the running bit offset)
+        decl = [d for _, d in fn.elements() if d['k'] == 'DeclStmt' and any(y.get('vid') == x['vid'] for y in d.get('decls', []))]
+        if not decl or fn.block_of[decl[0]['i']] in body:
+            continue                    # declared per iteration
+        n += 1
+        asg = {fn.block_of[u['i']] for _, u in fn.elements() if u['k'] in ('BinaryOperator', 'CompoundAssignOperator') and u.get('op') == '=' and fn.strip(u['c'][0]).get('vid') == x['vid']
+               and fn.block_of[u['i']] in body}
+        # from the loop head to the construction, staying inside the body, without passing an assignment
+        seen, todo, leak = set(), [h], False
+        while todo:
+            b_ = todo.pop()
+            if b_ in seen or b_ not in body or b_ in asg:
+                continue
+            seen.add(b_)
+            if b_ == cb:
+                leak = True
+                break
+            todo += [s_ for s_ in fn.blocks[b_]['succ'] if s_ is not None]
+        if leak:
+            bad = bad or (x, decl[0])
+    if bad:
+        x, d = bad
+        run.violated('SETRANGE', inst, fn.loc(ce), 'FeatureMap::readFeats builds a FeatureRef from `%s`, which is declared in front of the loop (%s) and is not assigned on every path of the iteration: a feature '
+                     'for which that assignment is skipped is built with the value of the feature before it -- e.g. a feature without settings gets the previous feature\'s maximum instead of "any 16-bit value", '
+                     'and the language id readSill stores in feature 1 is refused' % (fn.render(x), fn.loc(d)))
+    else:
+        run.held('SETRANGE', inst, fn.loc(ce), 'by-value arguments are per-iteration locals%s' % (' (%d declared outside, assigned on every path)' % n if n else ''))
+
+
 def run(run):
     fx = run.facts('Q0')
     maskexec(run, fx)
     inoutlang(run, fx)
     langfresh(run, fx)
+    sillexec(run, fx)
+    perfeature(run, fx)
+    from . import c01 as c01n_
+    from .util import OnlyRules as _OnlyN
+    c01n_.namebound(_OnlyN(run, ['VALIDATOR'], {'VALIDATOR': 'LABELENC'}), fx)        # a label is built from bytes of the name table only (shared with C01)
     from . import ordint as O_
     cf_ = fx.one('graphite2::SillMap::cloneFeatures')
     inst_ = 'cloneFeatures finds the language in any table order (interpreted)'
